@@ -99,6 +99,14 @@ def run_unit(ctx, unit):
     if rc < 0:
         bad("killed-by-signal", "the child was killed by signal %d" % -rc)
         return
+    # what "the run succeeded" means does not come from the code under test alone: a valid configuration on readable input
+    # fails only under --on-error=panic with malformed input (C06); an invalid configuration always fails (C18)
+    should_succeed = unit["valid"] and not (unit["policy"] == "panic" and noisy)
+    unread_noise = "--take" in unit["config"] and noisy and unit["policy"] == "panic"   # the noise may lie behind the last row wanted
+    if unit["sink"] == "pipe" and not unread_noise and (rc == 0) != should_succeed:
+        bad("exit-status-vs-documented-outcome", "exit status %d but the run %s (valid configuration: %s, malformed input: %s)" % (
+            rc, "must succeed" if should_succeed else "must fail", unit["valid"], noisy))
+        return
     if unit["sink"] == "pipe":
         if out != ref.stdout:
             bad("stdout-differs", "stdout of the executable differs from the in-process run")
